@@ -50,6 +50,9 @@ def check(ctx, case):
 		return [f'c16.label {hx(case["path"].encode())} {hx(get_file_id(case["path"]).encode())}'], []
 	qs = [w.genomes[i] for i in case['q']]
 	rs = [w.genomes[i] for i in case['r']] if case['rkind'] not in ('db', 'square') else None
+	if rs is not None and case.get('namesake_refs'):
+		# references that share their file name (hence their label) with a query but are different genomes
+		rs = [(g['namesake'] if f else g) for g, f in zip(rs, case['namesake_refs'])]
 	out = w.sc.path(suffix='.csv')
 	args = []
 	if case['rkind'] == 'db':
@@ -77,7 +80,7 @@ def check(ctx, case):
 			args += ['-r', g['path']]
 		rk, rtok = 'f', [str(g['path']) for g in rs]
 	elif case['rkind'] == 'list':
-		args += ['--rl', w.listfile(rs, 'rl.txt'), '--rdir', w.qdir]
+		args += ['--rl', w.listfile(rs, 'rl.txt'), '--rdir', (w.namesake_dir if any(g.get('path', '') and str(g['path']).startswith(str(w.namesake_dir)) for g in rs) else w.qdir)]
 		rk, rtok = 'f', [g['rel'] for g in rs]
 	elif case['rkind'] == 'sigs':
 		p, ids = w.sigfile(rs, ids=[f'ref#{i}' for i in range(len(rs))])
@@ -93,7 +96,7 @@ def check(ctx, case):
 	# which parameters are in force: explicit / a signature source / the default (C14)
 	uses_spec = case.get('explicit') or case['qkind'] == 'sigs' or case['rkind'] in ('sigs', 'db')
 	spec = w.spec if uses_spec else (11, 'ATGAC')
-	code, so, se, exc = run_cli(args)
+	code, so, se, exc = run_cli(args, cwd=(w.decoy_cwd if case.get('decoy_cwd') else None))
 	if code != 0 or not out.exists():
 		if case['rkind'] == 'db':
 			dbs.close()
@@ -129,6 +132,17 @@ def run(ctx):
 		for p in ['a/b/c.fasta', 'x.fa.gz', 'dir.d/y.fna', 'z.gz', 'noext', '.fasta', 'a.fasta.fasta', 'a.gz.gz', 'a.fa.fasta', 'rel/../q.ffn.gz', 'A.FASTA', 'a.faa', 'a.frn',
 		          'a b/c d.fa', 'a.fastq', 'x.fasta.gz.gz', 'weird.fa.txt'] + [str(g['path']) for g in w.genomes]:
 			sub({'kind': 'label', 'path': p}, 'label')
+		# random names over an alphabet rich in extension letters: stems that merely *end in* extension letters, stacked / partial extensions
+		alpha = 'afstnqgz._-AF1'
+		exts = ['.fasta', '.fna', '.ffn', '.faa', '.frn', '.fa', '.gz', '.fastq', '.FA', 'fa', 'fasta', '_fa', '.f', '.fas', '']
+		for j in range(ctx.q(1500, 20000)):
+			stem = ''.join(rng.choice(alpha) for _ in range(rng.randint(0, 7)))
+			name = stem + rng.choice(exts) + rng.choice(['', '', '.gz', 'gz', '.gz.gz'])
+			if rng.random() < 0.3:
+				name = ''.join(rng.choice(alpha + '/') for _ in range(rng.randint(0, 5))) + '/' + name
+			if not name or name.endswith('/'):
+				continue
+			sub({'kind': 'label', 'path': name}, 'label-random')
 		# csv writer/reader model vs CPython
 		alphabet = ['a', 'b', ',', '"', '\n', '\r', ' ', 'é', '']
 		for j in range(ctx.q(400, 6000)):
@@ -141,14 +155,20 @@ def run(ctx):
 		# the 3 x 5 grid
 		for qkind in ('files', 'list', 'sigs'):
 			for rkind in ('files', 'list', 'sigs', 'db', 'square'):
-				for rep in range(ctx.q(2, 12)):
+				for rep in range(ctx.q(5, 25)):
 					if not ctx.time_left(0.9):
 						break
 					q = rng.sample(range(n), rng.randint(1, 4))
 					r = rng.sample(range(n), rng.randint(1, 4))
 					explicit = rng.random() < 0.5
+					ns = None
+					if rkind in ('files', 'list') and rng.random() < 0.5:
+						r = list(q) if rng.random() < 0.5 else r          # same names on both sides
+						flags = [rng.random() < 0.7 for _ in r]
+						# a list file has one base directory: all-or-nothing there
+						ns = flags if rkind == 'files' else [flags[0]] * len(r)
 					sub({'kind': 'dist', 'qkind': qkind, 'rkind': rkind, 'q': q, 'r': r, 'explicit': explicit, 'cores': rng.choice([None, 1, 2, 4]),
-					     'blank': rng.random() < 0.3}, 'dist')
+					     'blank': rng.random() < 0.3, 'namesake_refs': ns, 'decoy_cwd': rng.random() < 0.5}, 'dist')
 	finally:
 		if _w is not None:
 			_w.cleanup()
